@@ -134,7 +134,7 @@ fn main() {
             std::fs::write(&args[5], serde_json::to_string_pretty(&out).unwrap()).unwrap();
             let rec = scn.replay(&out);
             for i in &rec.issues {
-                say!("  {}:{} {}", i.prop, i.rule, i.msg);
+                say!("  {}:{} [{}] {}", i.prop, i.rule, i.sig, i.msg);
             }
         }
         Some("w1try") => {
@@ -306,7 +306,7 @@ fn cli(args: &[String]) -> i32 {
             let expect_log = doc["expect"]["log"].as_str().unwrap_or("");
             say!("replay log={:016x} expected_log={} issues={}", rec.log_hash, expect_log, rec.issues.len());
             for i in &rec.issues {
-                say!("  {}:{} {}", i.prop, i.rule, i.msg);
+                say!("  {}:{} [{}] {}", i.prop, i.rule, i.sig, i.msg);
             }
             if !expect_log.is_empty() && format!("{:016x}", rec.log_hash) != expect_log {
                 eprintln!("HARNESS-ERROR: event log differs from the recorded one (the code under test changed, or nondeterminism)");
